@@ -361,6 +361,119 @@ theorem scope_strokes_exactly_the_specified (len : List Char → Nat) (s : Span)
   · rintro ⟨cc, hcc, h⟩
     exact ⟨cc, hcc, ((alpha_cell len s ha cc hcc).2 P).mpr h⟩
 
+/-! ### the re-computation of rejected groups on a reduced span invents no stroke
+
+After the rectangles are taken out, the cells of the rejected groups are interpreted again among
+themselves (`Span::re_endorse`): a cell then sees fewer neighbours. For this alphabet fewer
+neighbours can only mean fewer strokes. -/
+
+theorem spanLookup_of_mem (s : Span) (hnd : (s.map (·.1)).Nodup) (c : Cell) (ch : Char)
+    (h : (c, ch) ∈ s) : spanLookup s c = some ch := by
+  unfold spanLookup
+  induction s with
+  | nil => cases h
+  | cons x xs ih =>
+    simp only [List.map_cons, List.nodup_cons] at hnd
+    rcases List.mem_cons.mp h with rfl | h
+    · simp [List.find?]
+    · have hne : x.1 ≠ c := by
+        intro he
+        apply hnd.1
+        rw [he]
+        exact List.mem_map_of_mem (f := (·.1)) h
+      have : (x.1 == c) = false := by simpa using hne
+      simp only [List.find?, this]
+      exact ih hnd.2 h
+
+/-- what a neighbour looks like in a sub-span: the same as in the span, or empty -/
+theorem neighbours_sub (len : List Char → Nat) (s t : Span) (hnd : (s.map (·.1)).Nodup)
+    (hsub : ∀ cc ∈ t, cc ∈ s) (c : Cell) (d : Dir) :
+    neighbours len t c d = neighbours len s c d ∨ neighbours len t c d = Entry.empty := by
+  unfold neighbours
+  cases ht : spanLookup t ⟨c.x + d.delta.1, c.y + d.delta.2⟩ with
+  | none => right; rfl
+  | some ch =>
+    left
+    have hm := hsub _ (spanLookup_some_mem t _ ch ht)
+    rw [spanLookup_of_mem s hnd _ ch hm]
+
+/-- membership in the specified strokes, spelled out -/
+theorem mem_specStrokes (ch u d l r : Char) (se : Pt × Pt) :
+    se ∈ specStrokes ch u d l r ↔
+      (ch = '-' ∧ se = (⟨0, 1000⟩, ⟨1000, 1000⟩)) ∨
+      (ch = '|' ∧ (se = (⟨500, 0⟩, ⟨500, 2000⟩) ∨ (r = '-' ∧ se = (⟨500, 1000⟩, ⟨1000, 1000⟩)) ∨
+        (l = '-' ∧ se = (⟨0, 1000⟩, ⟨500, 1000⟩)))) ∨
+      (ch = '+' ∧ (((u = '|' ∨ u = '+') ∧ se = (⟨500, 0⟩, ⟨500, 1000⟩)) ∨
+        ((d = '|' ∨ d = '+') ∧ se = (⟨500, 1000⟩, ⟨500, 2000⟩)) ∨
+        ((l = '-' ∨ l = '+') ∧ se = (⟨0, 1000⟩, ⟨500, 1000⟩)) ∨
+        ((r = '-' ∨ r = '+') ∧ se = (⟨500, 1000⟩, ⟨1000, 1000⟩)))) := by
+  unfold specStrokes
+  by_cases h1 : ch = '-'
+  · subst h1; simp
+  · by_cases h2 : ch = '|'
+    · subst h2
+      split_ifs <;> simp_all <;> tauto
+    · by_cases h3 : ch = '+'
+      · subst h3
+        split_ifs <;> simp_all <;> tauto
+      · have e1 : (ch == '-') = false := by simpa using h1
+        have e2 : (ch == '|') = false := by simpa using h2
+        have e3 : (ch == '+') = false := by simpa using h3
+        simp [e1, e2, e3, h1, h2, h3]
+
+/-- the specification is monotone: replacing neighbours by blanks only removes strokes -/
+theorem specStrokes_mono (ch u d l r u' d' l' r' : Char)
+    (hu : u' = u ∨ u' = ' ') (hd : d' = d ∨ d' = ' ') (hl : l' = l ∨ l' = ' ') (hr : r' = r ∨ r' = ' ') :
+    ∀ se ∈ specStrokes ch u' d' l' r', se ∈ specStrokes ch u d l r := by
+  intro se h
+  rw [mem_specStrokes] at h ⊢
+  have nb : ∀ x x' : Char, (x' = x ∨ x' = ' ') → ∀ c : Char, c ≠ ' ' → x' = c → x = c := by
+    intro x x' hx c hc he
+    rcases hx with rfl | rfl
+    · exact he
+    · exact absurd he.symm hc
+  have n1 : ('-' : Char) ≠ ' ' := by decide
+  have n2 : ('|' : Char) ≠ ' ' := by decide
+  have n3 : ('+' : Char) ≠ ' ' := by decide
+  rcases h with h | ⟨hc, h⟩ | ⟨hc, h⟩
+  · exact Or.inl h
+  · refine Or.inr (Or.inl ⟨hc, ?_⟩)
+    rcases h with h | ⟨hx, h⟩ | ⟨hx, h⟩
+    · exact Or.inl h
+    · exact Or.inr (Or.inl ⟨nb r r' hr _ n1 hx, h⟩)
+    · exact Or.inr (Or.inr ⟨nb l l' hl _ n1 hx, h⟩)
+  · refine Or.inr (Or.inr ⟨hc, ?_⟩)
+    rcases h with ⟨hx, h⟩ | ⟨hx, h⟩ | ⟨hx, h⟩ | ⟨hx, h⟩
+    · exact Or.inl ⟨hx.imp (nb u u' hu _ n2) (nb u u' hu _ n3), h⟩
+    · exact Or.inr (Or.inl ⟨hx.imp (nb d d' hd _ n2) (nb d d' hd _ n3), h⟩)
+    · exact Or.inr (Or.inr (Or.inl ⟨hx.imp (nb l l' hl _ n1) (nb l l' hl _ n3), h⟩))
+    · exact Or.inr (Or.inr (Or.inr ⟨hx.imp (nb r r' hr _ n1) (nb r r' hr _ n3), h⟩))
+
+/-- **no invented stroke**: a cell of a sub-span is specified at most the strokes it is specified in
+the span -/
+theorem reduced_span_specifies_no_new_stroke (len : List Char → Nat) (s t : Span)
+    (hnd : (s.map (·.1)).Nodup) (hsub : ∀ cc ∈ t, cc ∈ s) (cc : Cell × Char) :
+    ∀ se ∈ specOf len t cc, se ∈ specOf len s cc := by
+  unfold specOf
+  have hch : ∀ d, (neighbours len t cc.1 d).ch = (neighbours len s cc.1 d).ch ∨
+      (neighbours len t cc.1 d).ch = ' ' := by
+    intro d
+    rcases neighbours_sub len s t hnd hsub cc.1 d with h | h
+    · left; rw [h]
+    · right; rw [h]; rfl
+  exact specStrokes_mono cc.2 _ _ _ _ _ _ _ _ (hch .top) (hch .bottom) (hch .left) (hch .right)
+
+/-- …hence the contact groups of a sub-span stroke only points that the span's specification
+strokes (with `scope_strokes_exactly_the_specified` on both sides) -/
+theorem reduced_span_strokes_within_the_specified (len : List Char → Nat) (s t : Span)
+    (hs : Alpha len s) (hnd : (s.map (·.1)).Nodup) (hsub : ∀ cc ∈ t, cc ∈ s)
+    (P : RPt) (hq : 0 < P.q)
+    (h : ∃ g ∈ contactsOf len t, ∃ f ∈ g, f.frag.strokes P) :
+    ∃ cc ∈ s, ∃ se ∈ specOf len s cc, OnSeg (cc.1.origin.add se.1) (cc.1.origin.add se.2) P := by
+  have ht : Alpha len t := fun cc hcc => hs cc (hsub cc hcc)
+  obtain ⟨cc, hcc, se, hse, hon⟩ := (scope_strokes_exactly_the_specified len t ht P hq).mp h
+  exact ⟨cc, hsub cc hcc, se, reduced_span_specifies_no_new_stroke len s t hnd hsub cc se hse, hon⟩
+
 /-- the predicate on rational points is the code's `onSegment` at integer points -/
 theorem stroke_predicate_is_the_codes (s e p : Pt) :
     OnSeg s e ⟨p.x, p.y, 1⟩ ↔ onSegment s e p = true := onSeg_int s e p
